@@ -101,7 +101,9 @@ def cmd_smt_enum(cmd):
         solver._model = p.stdout
         oc = solver.optimization_outcome()
         out["outcome"] = oc.name
-        out["solver_errors"] = [l for l in p.stdout.splitlines() if l.startswith("(error") and "model is not available" not in l][:5]
+        out["solver_errors"] = [l for l in p.stdout.splitlines() if l.startswith("(error") and "model is not available" not in l
+                                # "canceled" is the solver's own time limit firing in the middle of a command, not a rejection of the text
+                                and "canceled" not in l][:5]
         if oc in (OptimizeOutcome.optimal, OptimizeOutcome.non_optimal):
             out["opt_ids"] = opt._rebuild_block_from_solver()
     except subprocess.TimeoutExpired:
